@@ -9,6 +9,7 @@ FLOOR = 13      # 70% of the 19 obligation instances derived on the tree the rul
 EXPLANATION = ('Counts are runtime arithmetic and are not decided. Decided: dereferences (and references) of counted keys are not mirrored as removals in '
                'the commit overlay; every Set is mirrored under the current commit id; with ref_counted on, a Set on an existing key increments and returns '
                'before any replace/remove, and a Dereference removes only through write_dec_ref.')
+EXPLANATION += ' Added: change lists are append-only; value iteration is bounded by the fill mark; the writer-side search verifies the stored key; the handle keeps the stored salt.'
 ASSUMPTIONS = ['the count arithmetic in ValueTable::change_ref and the table chain logic are not decided', 'unwind edges ignored']
 TRUSTED = ['rustc MIR construction (nightly)', 'pdb-facts driver', 'rule engine /verif/rules', 'anchor tables in props/C07.py']
 
